@@ -383,6 +383,35 @@ def sz_compare(case, o, resp):
   return None
 
 
+def deque_selfcheck(ctx, n_cases=80):
+  """The model's reading of `collections.deque(maxlen)` is a trusted line: check it each run — the compiled model
+  (every maxlen, cap, num_steps) against the DequeueIterator algorithm run on CPython's own deque."""
+  rng = ctx.rng
+  reqs, wants = [], []
+  for _ in range(n_cases):
+    n, bm, maxlen = rng.randrange(0, 30), rng.randrange(1, 8), rng.randrange(0, 9)
+    steps = rng.choice([None, None, rng.randrange(0, n + 2)])
+    reqs.append(dict(model='dequeuecache', n=n, bm=bm, maxlen=maxlen, steps=steps, queues=1))
+    d, out, cnt = collections.deque(maxlen=maxlen or None), [], 0
+    refills = [list(range(i, min(i + bm, n))) for i in range(0, n, bm)]
+    while True:
+      if steps is not None and cnt == steps:
+        break
+      if not d:
+        if not refills:
+          break
+        d.extend(refills.pop(0))
+      cnt += 1
+      out.append(d.popleft())
+    wants.append(out)
+  resps = ctx.lean.ask_many(reqs)
+  for rq, w, r in zip(reqs, wants, resps):
+    ctx.extra_evals += 1
+    ctx.count('sizes:deque-selfcheck', 'bounded cache smaller than a refill' if 0 < rq['maxlen'] < min(rq['bm'], rq['n']) else 'other')
+    if r.get('out') != w:
+      ctx.extra_disagreements.append(('deque(maxlen) semantics', rq, dict(why='model != CPython deque', model=r.get('out'), cpython=w)))
+
+
 # ------------------------------------------------------------------ fam = sliced: the real code
 
 def _c02():
